@@ -23,7 +23,8 @@ REQUIRED_TAGS = ['applied', 'rejected']
 LIMITS = {'quick': {'max_paths': 20000, 'max_s': 150}, 'thorough': {'max_paths': 200000, 'max_s': 900}}
 
 ERRORS = ['none', 'unknown-module-property', 'unknown-parameter', 'unknown-parameter-property', 'wrong-kind-value',
-          'missing-mandatory-property', 'missing-needscfg-value', 'inverted-limits', 'wrong-kind-property', 'bad-enum-value']
+          'missing-mandatory-property', 'missing-needscfg-value', 'inverted-limits', 'wrong-kind-property', 'bad-enum-value',
+          'missing-needscfg-value-with-default', 'inverted-member-limits', 'unknown-property-on-limit']
 
 
 def cases(tier):
@@ -37,7 +38,8 @@ def cases(tier):
 
 
 def make_class(log):
-    from frappy.core import Readable, Parameter, Property, FloatRange, IntRange, StringType, EnumType
+    from frappy.core import Readable, Parameter, Property, FloatRange, IntRange, StringType, EnumType, ArrayOf
+    from frappy.params import Limit
 
     class Cfg(Readable):
         needed = Property('mandatory property', FloatRange(), mandatory=True)
@@ -46,6 +48,10 @@ def make_class(log):
         pn = Parameter('needs cfg', FloatRange(), needscfg=True)
         ps = Parameter('string', StringType(), readonly=False, default='')
         pe = Parameter('enum', EnumType('e', a=1, b=2), readonly=False, default=1)
+        pn2 = Parameter('needs cfg although it has a default', FloatRange(), needscfg=True, default=1.0)
+        pa = Parameter('array', ArrayOf(FloatRange(0, 10), 0, 3), readonly=False, default=[])
+        other = Parameter('parameter with a limit parameter', FloatRange(0, 10), readonly=False, default=0)
+        other_max = Limit()
 
         def write_pf(self, value):
             log.append(('write_pf', self.name, value))
@@ -74,7 +80,7 @@ def section(env, name, cls, err, tag):
         env.assume(lo > hi)
     else:
         env.assume(M.And(lo <= v, v <= hi))
-    kw = {'needed': 1.5, 'opt': 3, 'pf': Param(v, min=lo, max=hi), 'pn': Param(7.0), 'ps': 'text', 'pe': 'b'}
+    kw = {'needed': 1.5, 'opt': 3, 'pf': Param(v, min=lo, max=hi), 'pn': Param(7.0), 'pn2': 2.0, 'ps': 'text', 'pe': 'b'}
     if err == 'unknown-module-property':
         kw['zz'] = 1
     elif err == 'unknown-parameter':
@@ -87,6 +93,12 @@ def section(env, name, cls, err, tag):
         del kw['needed']
     elif err == 'missing-needscfg-value':
         del kw['pn']
+    elif err == 'missing-needscfg-value-with-default':
+        del kw['pn2']
+    elif err == 'inverted-member-limits':
+        kw['pa'] = Param(min=5, max=1)
+    elif err == 'unknown-property-on-limit':
+        kw['other_max'] = Param(nonsense=1)
     elif err == 'wrong-kind-property':
         kw['opt'] = 'many'
     elif err == 'bad-enum-value':
@@ -135,7 +147,7 @@ def run_config(env, p):
     bad = [n for n, e in zip(names, p['errors']) if e != 'none']
     if bad:
         env.note('rejected')
-        env.check(not started, K + '/erroneous-configuration-accepted', p['errors'])
+        env.check(not started, K + '/erroneous-configuration-accepted/' + '+'.join(p['errors']))
         txt = '\n'.join(srv.secnode.errors)
         for n, e in zip(names, p['errors']):
             if e != 'none':
@@ -143,8 +155,9 @@ def run_config(env, p):
                 env.check(n in txt, K + f'/{e}/failing-module-not-reported', txt[:300])
                 hint = {'unknown-module-property': 'zz', 'unknown-parameter': 'nopar', 'unknown-parameter-property': 'nonsense',
                         'wrong-kind-value': 'pf', 'missing-mandatory-property': 'needed', 'missing-needscfg-value': 'pn',
-                        'inverted-limits': 'min', 'wrong-kind-property': 'opt', 'bad-enum-value': 'pe'}[e]
-                if e != 'unknown-parameter-property':   # reported as 'error creating <module>' only (cause goes to the log)
+                        'inverted-limits': 'min', 'wrong-kind-property': 'opt', 'bad-enum-value': 'pe',
+                        'missing-needscfg-value-with-default': 'pn2', 'inverted-member-limits': 'pa', 'unknown-property-on-limit': 'other_max'}[e]
+                if e not in ('unknown-parameter-property', 'unknown-property-on-limit'):   # reported as 'error creating <module>' only (cause goes to the log)
                     env.check(hint in txt, K + f'/{e}/error-not-named', txt[:300])
         return
     env.note('applied')
